@@ -6,6 +6,8 @@ CONSTANTS
     Design = "temp"
     Policy = "trust"
     RenameAt = "written"
+    BypassOne = FALSE
+    MkdirAtBuild = FALSE
     Recover = FALSE
     Forwards = TRUE
     MaxDrop = 0
